@@ -667,6 +667,7 @@ pub fn run(cfg: &RunCfg) -> CheckReport {
         "every (algorithm, old, new) from the listed scopes x 9 adapter stacks x failing call index k in {none} + 0..calls(success run of that stack); one case = one (algorithm, input) with all its stacks and k. Non-trivial: the bare success run has at least 3 hook calls. Cases distinct by construction. Plus a direct drive of NoFinishHook / &mut with every call kind and failure position, and a second part with two deviations per run (deadline expiry at probe e via the virtual clock AND hook failure at call k, every combination) on a smaller scope.",
     );
     rep.assume("fault model: a hook call returns Err once (at call k); calls made after it are recorded and counted as violations");
+    rep.assume("adapter reuse: a Replace value is taken to be reusable after a finished or an aborted script (on the pinned tree it returns to its initial state on every flush); this leans on observed, not stated, behaviour (DESIGN.md section 13). Compact is never reused: it is built for one pair of sequences and keeps its op list");
     match wrapper_protocol() {
         Ok(n) => {
             rep.extra.insert("wrapper_protocol_scripts".into(), json!(n));
